@@ -219,7 +219,7 @@ P_NAFields == \A f \in Forged : /\ f.tgt \in refRouters /\ f.tlla = Own /\ f.ove
 P_StartFilters == ev.kind = "start" => /\ ev.err = pre.v4
                                         /\ (~pre.effective => ev.spawned = 0)
 \* "is idempotent per MAC"
-P_Idempotent == ev.kind = "start" /\ pre.effective => ev.spawned = (IF pre.hunted THEN 0 ELSE 1)
+P_Idempotent == ev.kind = "start" /\ pre.effective /\ ~refClosed => ev.spawned = (IF pre.hunted THEN 0 ELSE 1)
 P_ListMatches == refClosed \/ (HuntMacs = refHunt /\ Cardinality(HuntMacs) = Len(hunt))   \* (the statement is silent about the list after Close)
 \* "after StopHunt or Close no further forged advertisement reaches that host"; reading: at most the
 \* send round already past its check
